@@ -377,11 +377,34 @@ def run_suite(tier, workdir):
     try:
         env = {"RUSTFLAGS": "--cfg y_crdt_y_crdt_verif --check-cfg cfg(y_crdt_y_crdt_verif) --cap-lints allow",
                "CARGO_TARGET_DIR": os.path.join(scratch, "target"), "YRS_VERIF_TRACE": os.path.join(scratch, "raw"), "CARGO_NET_OFFLINE": "true"}
-        rc, out = vlib.sh("cargo test -p yrs --features weak --lib --offline -- --skip test_medium_data_set --skip edit_trace "
-                          "--skip test_small_data_set --skip fuzzy_test_300 2>&1 | tail -40", cwd=vlib.REPO, env=env, timeout=3000)
-        failed_tests = [ln.split()[1] for ln in out.splitlines() if ln.startswith("test ") and ln.rstrip().endswith("FAILED")]
+        cmd = ("cargo test -p yrs --features weak --lib --offline -- --skip test_medium_data_set --skip edit_trace "
+               "--skip test_small_data_set --skip fuzzy_test_300 2>&1 | tail -40")
+        rc, out = vlib.sh(cmd, cwd=vlib.REPO, env=env, timeout=3000)
+        died = ""
         if "test result:" not in out:
-            raise vlib.ToolError("test-suite run with hooks on produced no result:\n" + out[-1500:])
+            if "error: could not compile" in out or "error[E" in out:
+                raise vlib.ToolError("test-suite build with hooks on failed:\n" + out[-1500:])
+            # the test process died (signal) before reporting: the transactions recorded so far are still behaviours of the
+            # code under test (prefixes of the tests that were running). Try once more for complete traces, else go on with
+            # what was recorded - the death of a repository test process is reported as a note, never as a tool error
+            died = out[-400:]
+            for fn in os.listdir(scratch):
+                if fn.startswith("raw."):
+                    os.rename(os.path.join(scratch, fn), os.path.join(scratch, "first-" + fn))
+            rc, out = vlib.sh(cmd, cwd=vlib.REPO, env=env, timeout=3000)
+            if "test result:" in out:
+                for fn in os.listdir(scratch):
+                    if fn.startswith("first-raw."):
+                        os.remove(os.path.join(scratch, fn))
+            else:
+                for fn in os.listdir(scratch):
+                    if fn.startswith("raw."):
+                        os.remove(os.path.join(scratch, fn))
+                for fn in os.listdir(scratch):
+                    if fn.startswith("first-raw."):
+                        os.rename(os.path.join(scratch, fn), os.path.join(scratch, fn[6:]))
+                print("# note: the repository test process died twice with the hooks on (%s); validating the transactions recorded before" % died.strip().splitlines()[-1][:160])
+        failed_tests = [ln.split()[1] for ln in out.splitlines() if ln.startswith("test ") and ln.rstrip().endswith("FAILED")]
         wd = os.path.join(workdir, "yata-suite")
         shutil.rmtree(wd, ignore_errors=True)
         os.makedirs(wd)
@@ -414,7 +437,7 @@ def run_suite(tier, workdir):
             if b in evs and 1 <= k <= len(evs[b]):
                 events[b] = json.loads(evs[b][k - 1])
     res = {"group": "suite", "engine": "yata", "merged": merged, "v_wall": time.time() - tv, "wall": time.time() - t0,
-           "tests": summary["behaviours"], "skipped": summary["skipped"], "failed_tests": failed_tests,
+           "tests": summary["behaviours"], "skipped": summary["skipped"], "failed_tests": failed_tests, "process_died": died,
            "bad": {b: {"preds": p, "schedule": {"bid": b, "suite_test": b[6:], "note": "re-run the repository test with the hooks on"},
                        "event": events.get(b)} for b, p in bad.items()},
            "nontrivial": [b for b in range(summary["behaviours"])], "samples": [], "cached": False}
@@ -443,7 +466,7 @@ def check(prop, tier):
         sr = run_suite(tier, wd)
         results.append(sr)
         ev.add_v("repository test-suite with hook H3 (%d tests, %d skipped)" % (sr["tests"], len(sr["skipped"])), sr["merged"], [], sr["v_wall"])
-        ev.cov["suite"] = {"tests_validated": sr["tests"], "skipped": sr["skipped"], "failed_tests_in_that_run": sr["failed_tests"]}
+        ev.cov["suite"] = {"tests_validated": sr["tests"], "skipped": sr["skipped"], "failed_tests_in_that_run": sr["failed_tests"], "test_process_died_once": bool(sr.get("process_died"))}
     if prop == "C15" and not os.environ.get("VERIF_ONLY_GROUPS"):
         import gckeep
         gr = gckeep.run(tier, wd)
